@@ -53,13 +53,13 @@ func DecodeColrSR(hdr BoxHeader, startPos uint64, sr bits.SliceReader) (Box, err
 		b := sr.ReadUint8()
 		c.FullRangeFlag = (b & fullRangeBit) == fullRangeBit
 	case ColorTypeRestrictedICCProfile, ColorTypeUnrestrictedICCTProfile:
-		c.ICCProfile = sr.RemainingBytes()
+		c.ICCProfile = sr.ReadBytes(hdr.payloadLen() - 4)
 	case QuickTimeColorParameters:
 		c.ColorPrimaries = sr.ReadUint16()
 		c.TransferCharacteristics = sr.ReadUint16()
 		c.MatrixCoefficients = sr.ReadUint16()
 	default:
-		c.UnknownPayload = sr.RemainingBytes()
+		c.UnknownPayload = sr.ReadBytes(hdr.payloadLen() - 4)
 	}
 	return &c, sr.AccError()
 }
